@@ -1,6 +1,6 @@
 (* Extraction of the C16 model and specification to OCaml.
    ExtrOcamlBasic only; N / positive / nat stay the extracted inductive types. *)
-From EP Require Import Base.Bytes IoFault.Spec IoFault.Model.
+From EP Require Import Base.Bytes IoFault.Spec IoFault.Model IoFault.Propagate.
 From Coq Require Import Extraction ExtrOcamlBasic.
 Extraction Language OCaml.
 Extraction "m_c16.ml"
@@ -14,4 +14,7 @@ Extraction "m_c16.ml"
   read_fixed ipv4_header_read ipv6_header_read tcp_header_read icmpv4_header_read
   macsec_header_read arp_packet_read ip_auth_read ipv6_raw_ext_read ipv6_frag_read
   x4_read x6_read ip_headers_read
+  run_x x_single_write x_ipv4_header_write x_ip_auth_header_write x_ipv6_raw_ext_header_write
+  x_tcp_header_write x_x4_write_internal x_x6_write_internal x_ip_headers_write_v4
+  x_ip_headers_write_v6 x_final_write_with_net
   L_ETH L_SLL.
